@@ -1838,7 +1838,8 @@ class Store:
                 inner._topology_ports(
                     self.subschema,
                     subtopology,
-                    source=self.path_for() + ('*',))
+                    source=self.path_for() + ('*',),
+                    own_node=True)
             inner._apply_subschema_path(path[1:])
 
     def _apply_subschema(self, subschema=None, subtopology=None):
@@ -1859,7 +1860,8 @@ class Store:
             child._topology_ports(
                 subschema,
                 subtopology,
-                source=self.path_for() + ('*',))
+                source=self.path_for() + ('*',),
+                own_node=True)
 
     def _apply_subschemas(self):
         """
@@ -1925,7 +1927,7 @@ class Store:
             self._apply_config(config, source=source)
             return self
 
-    def _topology_ports(self, schema, topology, source=None):
+    def _topology_ports(self, schema, topology, source=None, own_node=False):
         """
         Distribute a schema into the tree by mapping its ports
         according to the given topology.
@@ -1955,7 +1957,18 @@ class Store:
                     # A flag of the port (consumed by schema_topology) or
                     # its branch-level divider, not a sub-port.
                     if port == '_divider':
-                        self._apply_config({'_divider': subschema})
+                        # The divider belongs to the node the port is
+                        # wired to: this node when the wiring named it
+                        # with '_path' (or it is a child receiving its
+                        # store's sub-schema), the node a '*' tuple entry
+                        # leads to otherwise - never the compartment a
+                        # '_path'-less dictionary leaves us in.
+                        if own_node:
+                            self._apply_config({'_divider': subschema})
+                        elif isinstance(topology.get('*'), tuple):
+                            self._establish_path(
+                                topology['*'], {'_divider': subschema},
+                                source=source)
                     continue
                 path = topology.get(port, (port,))
 
@@ -1982,7 +1995,8 @@ class Store:
                     node._topology_ports(
                         subschema,
                         subpath,
-                        source=source)
+                        source=source,
+                        own_node='_path' in path)
 
                 else:
                     self._establish_path(
